@@ -280,12 +280,31 @@ func c14GenCtr(r *kit.Rand, i int, profile int) c14Ctr {
 	return ct
 }
 
+// c14StatusOrder: 60 % sorted by name (kubelet), 20 % spec order, 20 % any permutation
+func c14StatusOrder(r *kit.Rand, ctrs []c14Ctr) []int {
+	switch r.Weighted(60, 20, 20) {
+	case 0:
+		o := make([]int, len(ctrs))
+		for i := range o {
+			o[i] = i
+		}
+		sort.Slice(o, func(a, b int) bool { return ctrs[o[a]].name < ctrs[o[b]].name })
+		return o
+	case 1:
+		return nil
+	}
+	return r.Perm(len(ctrs))
+}
+
 type c14Pod struct {
-	ctrs      []c14Ctr
-	inits     []c14Ctr // init containers (the code: "TODO: count init container"; the statement does not decide them)
-	marking   string   // "label:BE", "annotation-only:BE", "label:LS" ..., "none"
-	webhook   bool     // spec annotation written by the pod webhook; false: no annotation at all
-	emptyAnno bool     // nothing declared but an (empty) annotation is present
+	ctrs []c14Ctr
+	// order of status.containerStatuses as indexes into ctrs; nil = spec order. The kubelet reports the statuses
+	// sorted by container name, the API does not promise any order.
+	statusOrder []int
+	inits       []c14Ctr // init containers (the code: "TODO: count init container"; the statement does not decide them)
+	marking     string   // "label:BE", "annotation-only:BE", "label:LS" ..., "none"
+	webhook     bool     // spec annotation written by the pod webhook; false: no annotation at all
+	emptyAnno   bool     // nothing declared but an (empty) annotation is present
 }
 
 func (p c14Pod) anyDeclared() bool {
@@ -332,6 +351,15 @@ func c14BuildPod(c *kit.Case, p c14Pod) *corev1.Pod {
 	for _, ct := range p.ctrs {
 		pod.Spec.Containers = append(pod.Spec.Containers, corev1.Container{Name: ct.name, Resources: corev1.ResourceRequirements{
 			Requests: c14RL(ct.cpuReq, ct.memReq), Limits: c14RL(ct.cpuLim, ct.memLim)}})
+	}
+	order := p.statusOrder
+	if order == nil {
+		for i := range p.ctrs {
+			order = append(order, i)
+		}
+	}
+	for _, i := range order {
+		ct := p.ctrs[i]
 		pod.Status.ContainerStatuses = append(pod.Status.ContainerStatuses, corev1.ContainerStatus{Name: ct.name, ContainerID: "containerd://id-" + ct.name})
 	}
 	for _, ct := range p.inits {
@@ -460,6 +488,26 @@ func c14ParseRatio(c *kit.Case, s string) float64 {
 // should be unset" - the only way the switch goes off.
 func c14CFSOn(sloMode string) bool { return sloMode != "suppress-on/cfsQuota" }
 
+func c14SLOSpec(c *kit.Case, mode string) *slov1alpha1.NodeSLOSpec {
+	var spec *slov1alpha1.NodeSLOSpec
+	switch mode {
+	case "default-spec":
+		spec = &slov1alpha1.NodeSLOSpec{}
+	case "suppress-on/cpuset":
+		spec = &slov1alpha1.NodeSLOSpec{ResourceUsedThresholdWithBE: &slov1alpha1.ResourceThresholdStrategy{Enable: ptr.To(true), CPUSuppressPolicy: slov1alpha1.CPUSetPolicy}}
+	case "suppress-off/cpuset":
+		spec = &slov1alpha1.NodeSLOSpec{ResourceUsedThresholdWithBE: &slov1alpha1.ResourceThresholdStrategy{Enable: ptr.To(false), CPUSuppressPolicy: slov1alpha1.CPUSetPolicy,
+			CPUSuppressThresholdPercent: ptr.To[int64](65), MemoryEvictThresholdPercent: ptr.To[int64](70)}}
+	case "suppress-on/cfsQuota":
+		spec = &slov1alpha1.NodeSLOSpec{ResourceUsedThresholdWithBE: &slov1alpha1.ResourceThresholdStrategy{Enable: ptr.To(true), CPUSuppressPolicy: slov1alpha1.CPUCfsQuotaPolicy}}
+	case "suppress-off/cfsQuota":
+		spec = &slov1alpha1.NodeSLOSpec{ResourceUsedThresholdWithBE: &slov1alpha1.ResourceThresholdStrategy{Enable: ptr.To(false), CPUSuppressPolicy: slov1alpha1.CPUCfsQuotaPolicy}}
+	default:
+		c.Harness("unknown slo mode %q", mode)
+	}
+	return spec
+}
+
 func c14Apply(c *kit.Case, p *plugin, st c14Step) {
 	if st.meta {
 		node := &corev1.Node{ObjectMeta: metav1.ObjectMeta{Name: "n0", Annotations: map[string]string{"other": "x"}}}
@@ -477,22 +525,7 @@ func c14Apply(c *kit.Case, p *plugin, st c14Step) {
 		c.Op("update %s -> updated=%v", st, upd)
 		return
 	}
-	var spec *slov1alpha1.NodeSLOSpec
-	switch st.val {
-	case "default-spec":
-		spec = &slov1alpha1.NodeSLOSpec{}
-	case "suppress-on/cpuset":
-		spec = &slov1alpha1.NodeSLOSpec{ResourceUsedThresholdWithBE: &slov1alpha1.ResourceThresholdStrategy{Enable: ptr.To(true), CPUSuppressPolicy: slov1alpha1.CPUSetPolicy}}
-	case "suppress-off/cpuset":
-		spec = &slov1alpha1.NodeSLOSpec{ResourceUsedThresholdWithBE: &slov1alpha1.ResourceThresholdStrategy{Enable: ptr.To(false), CPUSuppressPolicy: slov1alpha1.CPUSetPolicy,
-			CPUSuppressThresholdPercent: ptr.To[int64](65), MemoryEvictThresholdPercent: ptr.To[int64](70)}}
-	case "suppress-on/cfsQuota":
-		spec = &slov1alpha1.NodeSLOSpec{ResourceUsedThresholdWithBE: &slov1alpha1.ResourceThresholdStrategy{Enable: ptr.To(true), CPUSuppressPolicy: slov1alpha1.CPUCfsQuotaPolicy}}
-	case "suppress-off/cfsQuota":
-		spec = &slov1alpha1.NodeSLOSpec{ResourceUsedThresholdWithBE: &slov1alpha1.ResourceThresholdStrategy{Enable: ptr.To(false), CPUSuppressPolicy: slov1alpha1.CPUCfsQuotaPolicy}}
-	default:
-		c.Harness("unknown slo mode %q", st.val)
-	}
+	spec := c14SLOSpec(c, st.val)
 	upd, err := p.parseRuleForNodeSLO(spec)
 	if err != nil {
 		c.Harness("parseRuleForNodeSLO(%s): %v", st.val, err)
@@ -645,26 +678,7 @@ func c14CheckValues(c *kit.Case, level, where string, got protocol.Resources, w 
 	} else if *got.CPUShares != w.shares {
 		c.Fail("C14/"+level+"/cpu-shares", "%s: cpu shares %d, the standard conversion of the declared batch-cpu request gives %d", where, *got.CPUShares, w.shares)
 	}
-	q := *got.CFSQuota
-	switch {
-	case q == w.quota.val || q == w.quota.alt:
-		if q != w.quota.val {
-			c.Count("ratio_float_ambiguous_accepted", 1)
-		}
-	case lowerOnly && c14GE(q, w.quota.val):
-		c.Count("init_containers_pod_value_above_regular_sum", 1)
-	case w.quota.belowMin && q > 0 && q < c14MinQuotaUs:
-		fl.quotaKnown = true
-		c.Report("C14/"+level+"/cfs-quota-below-kernel-minimum-after-ratio",
-			"%s: cfs quota %d us is below the conversion's minimum of %d us (the kernel rejects cpu.cfs_quota_us < 1000 with EINVAL): the quota was divided by ratio %v after the minimum clamp and the minimum was not re-applied (statement value %d)",
-			where, q, c14MinQuotaUs, cfg.ratio, w.quota.val)
-	case level == "pod" && w.cpuUnlOnlyBare && cfg.cfsOn && q > 0:
-		fl.quotaKnown = true
-		c.Report("C14/pod/cfs-quota-limited-although-a-container-declares-nothing",
-			"%s: pod cfs quota %d, but a container of the pod declares no batch resource at all (omitted from the spec annotation), so its limit is undeclared = unlimited and the pod must be unlimited (-1)", where, q)
-	default:
-		c.Fail("C14/"+level+"/cfs-quota", "%s: cfs quota %d, expected %d (cfs switch on=%v, ratio %v, pre-minimum value %d)", where, q, w.quota.val, cfg.cfsOn, cfg.ratio, w.quota.doc)
-	}
+	fl.quotaKnown = c14CheckQuota(c, level, where, *got.CFSQuota, w, cfg, lowerOnly)
 	m := *got.MemoryLimit
 	switch {
 	case w.memOverflow:
@@ -686,6 +700,32 @@ func c14CheckValues(c *kit.Case, level, where string, got protocol.Resources, w 
 		c.Fail("C14/"+level+"/memory-limit", "%s: memory limit %d, expected %d", where, m, w.mem)
 	}
 	return fl
+}
+
+// c14CheckQuota compares one cfs quota (a response value, or the content of cpu.cfs_quota_us after a rule-update
+// callback) with the oracle; known reports the two analysed shapes, which are reported without ending the case.
+func c14CheckQuota(c *kit.Case, level, where string, q int64, w c14Want, cfg c14Cfg, lowerOnly bool) (known bool) {
+	var fl c14Flags
+	switch {
+	case q == w.quota.val || q == w.quota.alt:
+		if q != w.quota.val {
+			c.Count("ratio_float_ambiguous_accepted", 1)
+		}
+	case lowerOnly && c14GE(q, w.quota.val):
+		c.Count("init_containers_pod_value_above_regular_sum", 1)
+	case w.quota.belowMin && q > 0 && q < c14MinQuotaUs:
+		fl.quotaKnown = true
+		c.Report("C14/"+level+"/cfs-quota-below-kernel-minimum-after-ratio",
+			"%s: cfs quota %d us is below the conversion's minimum of %d us (the kernel rejects cpu.cfs_quota_us < 1000 with EINVAL): the quota was divided by ratio %v after the minimum clamp and the minimum was not re-applied (statement value %d)",
+			where, q, c14MinQuotaUs, cfg.ratio, w.quota.val)
+	case level == "pod" && w.cpuUnlOnlyBare && cfg.cfsOn && q > 0:
+		fl.quotaKnown = true
+		c.Report("C14/pod/cfs-quota-limited-although-a-container-declares-nothing",
+			"%s: pod cfs quota %d, but a container of the pod declares no batch resource at all (omitted from the spec annotation), so its limit is undeclared = unlimited and the pod must be unlimited (-1)", where, q)
+	default:
+		c.Fail("C14/"+level+"/cfs-quota", "%s: cfs quota %d, expected %d (cfs switch on=%v, ratio %v, pre-minimum value %d)", where, q, w.quota.val, cfg.cfsOn, cfg.ratio, w.quota.doc)
+	}
+	return fl.quotaKnown
 }
 
 // c14GE: a >= b for limits where -1 is "no limit".
@@ -720,6 +760,15 @@ func TestVerifC14Hook(t *testing.T) {
 			p := c14Pod{webhook: !r.Pct(12), emptyAnno: r.Pct(30)}
 			for i := 0; i < n; i++ {
 				p.ctrs = append(p.ctrs, c14GenCtr(r, i, profile))
+			}
+			p.statusOrder = c14StatusOrder(r, p.ctrs)
+			if p.statusOrder != nil {
+				for i, j := range p.statusOrder {
+					if i != j {
+						c.Count("pods_status_order_differs_from_spec_order", 1)
+						break
+					}
+				}
 			}
 			if r.Pct(7) { // init containers: declaring batch resources or not
 				for i, ni := 0, r.Range(1, 2); i < ni; i++ {
@@ -821,7 +870,7 @@ func TestVerifC14Hook(t *testing.T) {
 			for i, ct := range p.ctrs {
 				ctrStr[i] = ct.String()
 			}
-			c.Op("pod marking=%s containers=%v init-containers=%v webhook=%v annotation=%q", p.marking, ctrStr, p.inits, p.webhook, pod.Annotations[apiext.AnnotationExtendedResourceSpec])
+			c.Op("pod marking=%s containers=%v status-order=%v init-containers=%v webhook=%v annotation=%q", p.marking, ctrStr, p.statusOrder, p.inits, p.webhook, pod.Annotations[apiext.AnnotationExtendedResourceSpec])
 			c.Op("rule updates %v history=%v hooks-between=%v; last: slo=%s ratio=%q (cfs quota on=%v)", steps, history, hooksBetween, cfg.slo, cfg.ratioStr, cfg.cfsOn)
 
 			labelBE := p.marking == "label:BE"
